@@ -7,7 +7,7 @@ use crate::types::{
 };
 use pretty::RcDoc;
 
-static KEYWORDS: [&str; 30] = [
+static KEYWORDS: [&str; 32] = [
     "import",
     "service",
     "func",
@@ -38,6 +38,9 @@ static KEYWORDS: [&str; 30] = [
     "oneway",
     "query",
     "composite_query",
+    // lexed as boolean literals, not identifiers
+    "true",
+    "false",
 ];
 
 fn is_keyword(id: &str) -> bool {
